@@ -25,7 +25,7 @@ BOUNDS = {'quick': 'n in 1..6, K in 1..4 (incl. K>n), fft_size in {default, 2K-1
                    'dtype/x64 matrix {f16,bf16,f32,f64}x{x64 on,off} at (n,K)=(4,2),(5,3)',
           'thorough': 'n in 1..10, K in 1..6, fft_size up to 2K+5 and 16, batch in {(), (2,), band (2,1,K) against x (2,3,n)}'}
 STUBS = []
-ASSUMPTIONS = ['real arithmetic (FFT rounding outside the claim)', 'band values no wider than the data dtype']
+ASSUMPTIONS = ['real arithmetic (FFT rounding outside the claim)', 'band values no wider than the data dtype (narrower ones are in the dtype matrix: the result keeps the data dtype)']
 RULE = 'case = (n, K, method, fft_size, batch); non-trivial = K >= 2 or batch; distinct keys'
 BUDGET = {'quick': 400, 'thorough': 2400}
 CASE_TIMEOUT = {'quick': 120, 'thorough': 600}
@@ -58,6 +58,10 @@ def cases(tier, seed):
                 continue
             out.append(('aval', 4, 2, m, None, (), dt, x64))
             out.append(('aval', 5, 3, m, None, (2,), dt, x64))
+        # band values NARROWER than the data: the result still has the data dtype (= the declared output structure), for every method
+        for bdt, dt, x64 in (('f16', 'f32', True), ('f16', 'f32', False), ('bf16', 'f32', True), ('f32', 'f64', True), ('f16', 'f64', True)):
+            out.append(('aval', 4, 2, m, None, (), dt, x64, bdt))
+            out.append(('aval', 5, 3, m, None, (2,), dt, x64, bdt))
     out.append(('reject',))
     return out
 
@@ -153,12 +157,14 @@ def run_case(key, twin=False):
 
 
 def _aval(key):
-    _, n, K, m, f, b, dt, x64 = key
-    dtype = {'f32': f32, 'f64': f64, 'f16': jnp.float16, 'bf16': jnp.bfloat16}[dt]
+    _, n, K, m, f, b, dt, x64 = key[:8]
+    names = {'f32': f32, 'f64': f64, 'f16': jnp.float16, 'bf16': jnp.bfloat16}
+    dtype = names[dt]
+    bdtype = names[key[8]] if len(key) > 8 else dtype
     mk, hs, xs = _mk(n, K, m, f, b, dtype)
 
     def go():
-        h = jnp.ones(hs.shape, dtype)
+        h = jnp.ones(hs.shape, bdtype)
         op = mk(h)
         x = jnp.ones(xs.shape, dtype)
         return jax.eval_shape(op.mv, x), op.out_structure(), jax.eval_shape(op.as_matrix)
@@ -169,11 +175,11 @@ def _aval(key):
             with jax.enable_x64(False):
                 got, declared, mat = go()
     except Exception as ex:  # noqa: BLE001
-        return violation(f'mv raises {type(ex).__name__}: {str(ex)[:150]} for dtype={dt} x64={x64} method={m}',
-                         signature=f'c09-aval-raises:{m}:{dt}:x64={x64}', kind='aval-raises')
+        return violation(f'mv raises {type(ex).__name__}: {str(ex)[:150]} for dtype={dt} band={key[8:]} x64={x64} method={m}',
+                         signature=f'c09-aval-raises:{m}:{dt}:{key[8:]}:x64={x64}', kind='aval-raises')
     if tuple(got.shape) != tuple(xs.shape) or np.dtype(got.dtype) != np.dtype(dtype) or not structs_equal(declared, got):
-        return violation(f'output aval {got} != input aval {xs} (declared {declared}) for dtype={dt} x64={x64} method={m}',
-                         signature=f'c09-aval:{m}:{dt}:x64={x64}', kind='aval')
+        return violation(f'output aval {got} != input aval {xs} (declared {declared}) for dtype={dt} band={key[8:]} x64={x64} method={m}',
+                         signature=f'c09-aval:{m}:{dt}:{key[8:]}:x64={x64}', kind='aval')
     return ok(nontrivial=True, sample=dict(case=repr(key), out=str(got)))
 
 
